@@ -227,6 +227,22 @@ class Generator:
                 if i < len(lines) and lines[i].strip() == "//@end":
                     i += 1
                 continue
+            if st.startswith("//@const "):
+                # an associated const of an impl, emitted verbatim as a free `pub const` (type and value come from the source)
+                rest = st[len("//@const "):]
+                relfile, key = [x.strip() for x in rest.split("::", 1)]
+                try:
+                    src, it = self.idx.find(relfile, key, kinds=("assoc_const",))
+                    self.sources.add(relfile)
+                    nm = key.split("::")[-1]
+                    self.emit("// ---- extracted verbatim: %s::%s" % (relfile, key))
+                    self.emit("pub const %s: %s = %s;" % (nm, src[it["ty"][0]:it["ty"][1]].decode(), src[it["expr"][0]:it["expr"][1]].decode()))
+                    self.log.append({"rule": "R-TRAIT", "site": "%s::%s" % (relfile, key), "what": "associated const emitted as a free const"})
+                except Undecided as u:
+                    self.undecided.append((rest, str(u)))
+                    self.emit("// UNDECIDED %s: %s" % (rest, u))
+                i += 1
+                continue
             if st.startswith("//@viewof "):
                 # caller view of a function whose contract is proved in another unit: same contract text, body dropped
                 rest = st[len("//@viewof "):]
@@ -280,6 +296,14 @@ class Generator:
                 except Undecided as u:
                     self.undecided.append(("%s :: %s" % (relfile, key), str(u)))
                     self.emit("// UNDECIDED %s :: %s: %s" % (relfile, key, u))
+                    # the function itself stays undecided; its callers in this unit can still be checked against its
+                    # contract (modular verification): emit the caller view if the signature is intact
+                    try:
+                        src2, it2 = self.idx.find(spec.file, spec.key, kinds=("fn",))
+                        if it2["body"] is not None and not spec.selfarg and not spec.mutself and not spec.external:
+                            self.emit_view(spec, src2, it2, spec.name or it2["sig"]["name"], "%s::%s (UNDECIDED, contract only)" % (spec.file, spec.key))
+                    except Exception:
+                        pass
                     # obligations that could not be posed
                     for oid, props in self.planned_ids(spec):
                         self.obligations.append({"id": oid, "fn": spec.key, "props": props, "start": 0, "end": -1, "posed": False, "reason": str(u), "source": spec.file})
